@@ -70,6 +70,79 @@ pub fn world_for(tokens: &[Tok], markets: &[(usize, usize, usize)], n_users: usi
     v
 }
 
+// ------------------------------------------------------------------------------------------- plan serialisation
+
+/// 128-bit integers of a plan are written as decimal strings (`serde_json::Value` cannot hold them).
+pub mod s128 {
+    use serde::{Deserialize, Deserializer, Serializer};
+    use std::fmt::Display;
+    use std::str::FromStr;
+
+    pub fn serialize<T: Display, S: Serializer>(v: &T, s: S) -> Result<S::Ok, S::Error> {
+        s.collect_str(v)
+    }
+    pub fn deserialize<'de, T: FromStr, D: Deserializer<'de>>(d: D) -> Result<T, D::Error>
+    where
+        T::Err: Display,
+    {
+        let s = String::deserialize(d)?;
+        s.parse::<T>().map_err(serde::de::Error::custom)
+    }
+
+    pub mod opt {
+        use super::*;
+        pub fn serialize<T: Display, S: Serializer>(v: &Option<T>, s: S) -> Result<S::Ok, S::Error> {
+            match v {
+                Some(x) => s.serialize_some(&x.to_string()),
+                None => s.serialize_none(),
+            }
+        }
+        pub fn deserialize<'de, T: FromStr, D: Deserializer<'de>>(d: D) -> Result<Option<T>, D::Error>
+        where
+            T::Err: Display,
+        {
+            let s = Option::<String>::deserialize(d)?;
+            s.map(|x| x.parse::<T>().map_err(serde::de::Error::custom)).transpose()
+        }
+    }
+
+    pub mod vec {
+        use super::*;
+        use serde::ser::SerializeSeq;
+        pub fn serialize<T: Display, S: Serializer>(v: &[T], s: S) -> Result<S::Ok, S::Error> {
+            let mut seq = s.serialize_seq(Some(v.len()))?;
+            for x in v {
+                seq.serialize_element(&x.to_string())?;
+            }
+            seq.end()
+        }
+        pub fn deserialize<'de, T: FromStr, D: Deserializer<'de>>(d: D) -> Result<Vec<T>, D::Error>
+        where
+            T::Err: Display,
+        {
+            let s = Vec::<String>::deserialize(d)?;
+            s.into_iter().map(|x| x.parse::<T>().map_err(serde::de::Error::custom)).collect()
+        }
+    }
+
+    pub mod optvec {
+        use super::*;
+        pub fn serialize<T: Display, S: Serializer>(v: &Option<Vec<T>>, s: S) -> Result<S::Ok, S::Error> {
+            match v {
+                Some(x) => s.serialize_some(&x.iter().map(|y| y.to_string()).collect::<Vec<_>>()),
+                None => s.serialize_none(),
+            }
+        }
+        pub fn deserialize<'de, T: FromStr, D: Deserializer<'de>>(d: D) -> Result<Option<Vec<T>>, D::Error>
+        where
+            T::Err: Display,
+        {
+            let s = Option::<Vec<String>>::deserialize(d)?;
+            s.map(|v| v.into_iter().map(|x| x.parse::<T>().map_err(serde::de::Error::custom)).collect()).transpose()
+        }
+    }
+}
+
 // ------------------------------------------------------------------------------------------- keeper ixs
 
 pub fn insert_amount_ix(d: &Dep, key: &str, amount: u64) -> Instruction {
@@ -343,11 +416,15 @@ pub struct RelReport {
     pub obs_off: i64,
     /// expires_at = now + exp_off (clamped to u32).
     pub exp_off: i64,
+    #[serde(with = "s128")]
     pub price: i128,
+    #[serde(with = "s128")]
     pub bid: i128,
+    #[serde(with = "s128")]
     pub ask: i128,
     pub status: u32,
     /// last update = observations_ts·10⁹ − lu_back_ns (negative: in the future of the observation).
+    #[serde(with = "s128")]
     pub lu_back_ns: i128,
 }
 
